@@ -114,7 +114,7 @@ def run_file(scn, image=None):
     if reader in ("VbsReader", "IpmReader"):
         out = decode.run_reader(image, reader, blocked, enc=scn.get("encoding"),
                                 cfg=msgcodec.cfg_from_json(scn.get("config", "packaged")), maxlen=maxlen,
-                                style=scn.get("style", "for"))
+                                style=scn.get("style", "for"), pipe=bool(scn.get("pipe")))
     else:
         enc = scn.get("encoding") or "latin_1"
         fam = "ebcdic" if enc.startswith("cp") else "ascii"
